@@ -128,10 +128,10 @@ def internKey (key : List Nat → List Nat) (tbl : List (List Nat)) (x : List Na
   let i := (tbl.map key).idxOf (key x)
   (i, if i < tbl.length then tbl else tbl ++ [x])
 
-/-- the key of `stringhash` is `string(str)`: the conversion replaces every rune that is not a Unicode
-    scalar value (a surrogate, or above U+10FFFF) by U+FFFD, so such strings can share an entry -/
-def strKey (s : List Nat) : List Nat :=
-  s.map fun r => if (0xD800 ≤ r && r ≤ 0xDFFF) || r > 0x10FFFF then 0xFFFD else r
+/-- the key of `stringhash` is `string(str)`, which replaces every rune that is not a Unicode scalar value
+    by U+FFFD; since /repo 'fix: the set and string tables of the writer …' a hit is confirmed by comparing
+    the runes, so the table is keyed by the string itself (before: `x\uD800` and `x\uDC00` shared an entry) -/
+def strKey (s : List Nat) : List Nat := s
 
 /-- the key of `sethash` is the `mapHashFill` string, which is the payload itself -/
 def setKey (s : List Nat) : List Nat := s
